@@ -363,7 +363,7 @@ static int dial(int port)
   return fd;
 }
 
-// One client connection: steps `w<hex>` write, `s<ms>` sleep, `a<n>` await >= n bytes received, `b<n>` expected total.
+// One client connection: steps `w<hex>` write, `s<ms>` sleep, `a<n>` await >= n bytes received, `b<n>` expected total, `c` expect a close.
 // A reader thread collects everything the server writes.  Ends at EOF, or `linger` ms after the expected total arrived,
 // or at the watchdog (reported as timeout).
 static ConnResult runConn(int port, const std::string& spec, int watchdogMs, int lingerMs)
@@ -387,6 +387,7 @@ static ConnResult runConn(int port, const std::string& spec, int watchdogMs, int
   });
   auto deadline = Clock::now() + std::chrono::milliseconds(watchdogMs);
   std::size_t expected = static_cast<std::size_t>(-1);
+  bool expectClose = false;   // the server is expected to close: wait for the EOF up to the watchdog instead of the short linger
   std::stringstream ss(spec);
   std::string st;
   while (std::getline(ss, st, ';'))
@@ -414,16 +415,29 @@ static ConnResult runConn(int port, const std::string& spec, int watchdogMs, int
       if (!cv.wait_until(g, deadline, [&] { return r.data.size() >= need || readerDone; })) r.timedOut = true;
     }
     else if (k == 'b') expected = static_cast<std::size_t>(std::atoll(arg.c_str()));
+    else if (k == 'c') expectClose = true;
   }
   {
     std::unique_lock<std::mutex> g(m);
     if (!cv.wait_until(g, deadline, [&] { return r.data.size() >= expected || readerDone; })) r.timedOut = true;
     if (!readerDone && !r.timedOut)
-      cv.wait_for(g, std::chrono::milliseconds(lingerMs), [&] { return readerDone; });   // surplus bytes / a late close
+    {
+      if (expectClose) { if (!cv.wait_until(g, deadline, [&] { return readerDone; })) r.timedOut = true; }
+      else cv.wait_for(g, std::chrono::milliseconds(lingerMs), [&] { return readerDone; });   // surplus bytes / an unexpected close
+    }
+  }
+  bool eofSeen;
+  std::size_t got;
+  {
+    std::lock_guard<std::mutex> g(m);
+    eofSeen = readerDone && r.eof;   // an EOF after this point is our own shutdown, not the server's close
+    got = r.data.size();
   }
   ::shutdown(fd, SHUT_RDWR);
   reader.join();
   ::close(fd);
+  r.eof = eofSeen;
+  r.data.resize(got);
   return r;
 }
 
